@@ -233,8 +233,10 @@ def flow_safety_threshold(prog: Program, rep, RID: str):
     for fd in [n for n in ast.walk(f.node) if isinstance(n, ast.FunctionDef) and n is not f.node and len(n.args.args) == 2]:
         # a reader: the only access to the graph is G.edges[p0, p1][A] (one attribute A) and everything else in the function converts that value
         # (`.item()`, Fraction / int / float, isinstance / hasattr tests): it returns the value of the attribute as a number
-        subs = {norm(n.slice) for n in ast.walk(fd) if isinstance(n, ast.Subscript) and norm(n.value) == f"G.edges[{fd.args.args[0].arg}, {fd.args.args[1].arg}]"}
-        other_graph = [n for n in ast.walk(fd) if isinstance(n, ast.Attribute) and norm(n) .startswith("G.") and norm(n) != "G.edges"]
+        fdefs_ = all_local_defs(fd)      # (an inlined shared reader binds the attribute to a local first)
+        subs = {norm(substitute_locals(n.slice, fdefs_)) for n in ast.walk(fd) if isinstance(n, ast.Subscript) and
+                norm(substitute_locals(n.value, fdefs_)) == f"G.edges[{fd.args.args[0].arg}, {fd.args.args[1].arg}]"}
+        other_graph = [n for n in ast.walk(fd) if isinstance(n, ast.Attribute) and isinstance(n.value, ast.Name) and n.value.id == "G" and n.attr != "edges"]
         calls_ok = all((dotted(c_.func) in ("Fraction", "fractions.Fraction", "int", "float", "isinstance", "hasattr")) or
                        (isinstance(c_.func, ast.Attribute) and c_.func.attr == "item" and not c_.args) for c_ in ast.walk(fd) if isinstance(c_, ast.Call))
         rets_ = [r for r in ast.walk(fd) if isinstance(r, ast.Return) and r.value is not None]
